@@ -65,26 +65,30 @@ def compare(ref, got, what):
 
 
 def canonical_dump(js, skip=("scheduler",)):
-    """Structure of a to_json() dump with object ids replaced by first-visit numbers, so that
-    two dumps of equal object graphs (incl. equal sharing) compare equal."""
+    """Content of a to_json() dump with every object reference expanded in place (the object
+    graph is acyclic), so that two dumps of equal object graphs compare equal whatever ids the
+    objects got.  The pending-event heap is compared as a multiset: its internal layout may
+    legitimately differ as long as it pops in order (checked separately).  Sharing of objects is
+    not visible in this form; it is checked by the identity clauses."""
     import json
 
     d = json.loads(js)
     ctx = d["context_dict"]
-    number = {}
 
-    def walk(x):
+    def walk(x, depth=0):
+        if depth > 40:  # pragma: no cover - would mean a reference cycle
+            return "<deep>"
         if isinstance(x, str) and x in ctx:
-            if x in number:
-                return {"ref": number[x]}
-            number[x] = len(number)
             node = ctx[x]
             attrs = node.get("attributes", {})
-            return {"obj": number[x], "class": node.get("class"), "attributes": {k: walk(v) for k, v in sorted(attrs.items()) if k not in skip}}
+            out = {"class": node.get("class"), "attributes": {k: walk(v, depth + 1) for k, v in sorted(attrs.items()) if k not in skip}}
+            if str(node.get("class", "")).endswith("EventQueue") and isinstance(out["attributes"].get("_queue"), list):
+                out["attributes"]["_queue"] = sorted(out["attributes"]["_queue"], key=lambda e: json.dumps(e, sort_keys=True))
+            return out
         if isinstance(x, dict):
-            return {k: walk(v) for k, v in sorted(x.items())}
+            return {k: walk(v, depth + 1) for k, v in sorted(x.items())}
         if isinstance(x, list):
-            return [walk(v) for v in x]
+            return [walk(v, depth + 1) for v in x]
         return x
 
     return walk(d["id"])
